@@ -153,6 +153,7 @@ Q q_ceil()
     vf_assert((R - 1) * W(CD) < num && num <= R * W(CD), "ceil: r-1 < d <= r exactly");
     vf_assert(r == std::chrono::ceil<STo>(SFrom{c}).count(), "ceil == std::chrono");
 }
+#ifndef NO_ROUND
 Q q_round()
 {
     REP c = in<REP>(D_ROUND); lim(c, RLIM);
@@ -195,6 +196,7 @@ Q q_reach()
     }
     if (r != f) vf_witness("round goes up");
 }
+#endif
 Q q_abs()
 {
     REP c = nd(); vf_assume(i128(c) != RMIN);
@@ -281,9 +283,12 @@ Q q_caddsub()
     vf_assume(fits(i128(a) + b) && fits(i128(a) - b));
     vf_assert(i128(k_cadd(a, b)) == i128(a) + b && i128(k_csub(a, b)) == i128(a) - b, "compound += -=");
 }
+#ifndef MLIM
+#define MLIM 0   // bound on log2|multiplier| for *= (0 = whole range; the bit-vector SMT back end needs none)
+#endif
 Q q_cmul()
 {
-    REP a = nd(), b = nd(); lim(b, DLIM);
+    REP a = nd(), b = nd(); lim(b, MLIM);
     typedef std::conditional_t<REPW <= 32, long long, i128> M;
     M e = M(a) * M(b);
     vf_assume(e >= M(RMIN) && e <= M(RMAX));
@@ -348,8 +353,10 @@ Q q_tp_casts()
     vf_assert(k_tp_cast(c) == std::chrono::time_point_cast<STo>(tp).time_since_epoch().count(), "time_point_cast == std::chrono");
     vf_assert(k_tp_floor(c) == std::chrono::floor<STo>(tp).time_since_epoch().count(), "floor(time_point) == std::chrono");
     vf_assert(k_tp_ceil(c) == std::chrono::ceil<STo>(tp).time_since_epoch().count(), "ceil(time_point) == std::chrono");
-    vf_assert(k_tp_cast(c) == k_cast(c) && k_tp_floor(c) == k_floor(c) && k_tp_ceil(c) == k_ceil(c) && k_tp_round(c) == k_round(c),
-              "time_point_cast/floor/ceil/round are the duration operations on time_since_epoch()");
+    vf_assert(k_tp_cast(c) == k_cast(c) && k_tp_floor(c) == k_floor(c) && k_tp_ceil(c) == k_ceil(c), "time_point_cast/floor/ceil are the duration operations on time_since_epoch()");
+#ifndef NO_ROUND
+    vf_assert(k_tp_round(c) == k_round(c), "round(time_point) is round on time_since_epoch()");
+#endif
 }
 #else
 // ------------------------------------------------------------------------------------------ floating-point representations
